@@ -208,6 +208,78 @@ FAULTS = [
 ]
 FAILED = []
 
+# (e) a fault that FOLLOWS a valid use of the same entity under the same
+# rule: whatever a pass remembers about the valid use must not license the
+# invalid one.  (name, text, expected category, 1-based line of the fault)
+AFTER_VALID = [
+    ('goto_other_routine',
+     'GOTO l1\nl1:\nCALL w\nEND\nSUB w\n  GOTO l1\nEND SUB\n',
+     'LABEL_NOT_DEFINED', 6),
+    ('gosub_other_routine',
+     'GOSUB l1\nEND\nl1:\nRETURN\nSUB w\n  GOSUB l1\nEND SUB\n',
+     'LABEL_NOT_DEFINED', 6),
+    ('goto_two_subs',
+     'CALL a\nCALL b\nSUB a\n  GOTO l2\n  l2:\nEND SUB\nSUB b\n'
+     '  GOTO l2\nEND SUB\n', 'LABEL_NOT_DEFINED', 8),
+    ('goto_sub_label_from_main_after',
+     'CALL a\nSUB a\n  GOTO l3\n  l3:\nEND SUB\n', None, 0),
+    ('goto_function_then_sub',
+     'PRINT f%(1)\nCALL w\nFUNCTION f%(p%)\n  GOTO l4\n  l4:\n  f% = p%\n'
+     'END FUNCTION\nSUB w\n  GOSUB l4\nEND SUB\n', 'LABEL_NOT_DEFINED', 9),
+    ('restore_other_routine',
+     'RESTORE d1\nd1:\nDATA 1\nCALL w\nSUB w\n  GOTO d1\nEND SUB\n',
+     'LABEL_NOT_DEFINED', 6),
+    ('arg_count_after_valid_call',
+     'CALL w(1)\nCALL w(1, 2)\nSUB w (p%)\n  PRINT p%\nEND SUB\n',
+     'ARGUMENT_COUNT_MISMATCH', 2),
+    ('arg_type_after_valid_call',
+     'CALL w(1)\nCALL w("a")\nSUB w (p%)\n  PRINT p%\nEND SUB\n',
+     'TYPE_MISMATCH', 2),
+    ('rank_after_valid_index',
+     'DIM q%(1 TO 2)\nq%(1) = 3\nq%(1, 1) = 3\n',
+     'WRONG_NUMBER_OF_DIMENSIONS', 3),
+    ('exit_do_after_valid_exit',
+     'DO\n  EXIT DO\nLOOP\nEXIT DO\n', 'INVALID_EXIT', 4),
+    ('exit_for_after_valid_exit',
+     'FOR i% = 1 TO 2\n  EXIT FOR\nNEXT\nEXIT FOR\n', 'INVALID_EXIT', 4),
+    ('type_after_valid_dim',
+     'TYPE pt\n  a AS INTEGER\nEND TYPE\nDIM r AS pt\nDIM z AS pu\n',
+     'TYPE_NOT_DEFINED', 5),
+    ('undef_label_after_valid_goto',
+     'GOTO l5\nl5:\nGOTO l6\n', 'LABEL_NOT_DEFINED', 3),
+    ('undef_sub_after_valid_call',
+     'CALL w\nCALL v\nSUB w\nEND SUB\n', 'SUBPROGRAM_NOT_FOUND', 2),
+    ('assign_after_valid_assign_other_scope',
+     'x% = 1\nCALL w\nSUB w\n  x$ = "a"\n  x$ = 5\nEND SUB\n',
+     'TYPE_MISMATCH', 5),
+    ('dup_after_valid_in_other_scope',
+     'DIM d%\nCALL w\nSUB w\n  DIM d%\n  DIM d%\nEND SUB\n',
+     'DUPLICATE_DEFINITION', 5),
+]
+
+
+def check_after_valid():
+    """Every AFTER_VALID program x 6 configurations: rejected with the
+    category of the rule at a position on the line of the invalid use (or
+    accepted, where the expected category is None)."""
+    configs = [(o, d) for o in (0, 1, 2) for d in (False, True)]
+    for name, text, want, line in AFTER_VALID:
+        for opt, dbg in configs:
+            r = _compile(text, opt, dbg)
+            if want is None:
+                ok = r[0] == 'ok'
+            else:
+                ok = r[0] == 'diag' and r[1] == want and r[2] is not None \
+                    and 0 <= r[2] <= len(text) and \
+                    CH.line_of(text, r[2]) == line
+            if not ok:
+                FAILED.append(('after_valid', name, opt, dbg, r))
+                print('after-valid fault %s (-O%d%s): %r, expected %s on '
+                      'line %d' % (name, opt, ' -g' if dbg else '', r, want,
+                                   line))
+                return 0
+    return 1
+
 
 def _compile(text, opt, dbg):
     try:
